@@ -58,6 +58,7 @@ type point struct {
 	labelsHash     uint64
 	threadsEnabled int
 	runningEnabled bool
+	onlyDelayed    bool // every enabled thread was preempted earlier in this execution and is being held back
 	envKinds       []string // kind per choice ("" for threads)
 	labels         []string
 }
@@ -66,14 +67,17 @@ func (p *point) cost(alt int) int {
 	if alt == 0 {
 		return 0
 	}
-	if p.threadsEnabled > 0 {
-		if p.envKinds[alt] != "" {
-			return 1
-		}
-		if p.runningEnabled {
-			return 1
-		}
-		return 0
+	if p.runningEnabled {
+		// leaving a thread that could continue - for another thread or for an environment event - is a preemption
+		return 1
+	}
+	if p.envKinds[alt] == "" {
+		return 0 // the thread that ran last is blocked or has finished: which thread goes next is free
+	}
+	// an environment event: free when nothing else could run - threads that were preempted earlier and are
+	// being held back on purpose do not count - otherwise it overtakes a runnable thread and costs 1
+	if p.threadsEnabled > 0 && !p.onlyDelayed {
+		return 1
 	}
 	switch p.envKinds[alt] {
 	case "tick", "adv":
@@ -226,8 +230,17 @@ func (x *X1) run(prefix []int, prefixPoints []point, useCache bool) *Exec {
 	}
 	used := 0
 	ctxDone := false
+	delayed := map[*vsched.Thread]bool{}
 	for i := 0; ; i++ {
 		cs, p := w.choices(sc, true)
+		if p.threadsEnabled > 0 {
+			p.onlyDelayed = true
+			for _, c := range cs {
+				if c.T != nil && !delayed[c.T] {
+					p.onlyDelayed = false
+				}
+			}
+		}
 		if len(cs) == 0 {
 			if !ctxDone && len(w.S.Live()) > 0 {
 				// end of the scenario: stop the daemons (persist loop) through the runner context
@@ -267,6 +280,12 @@ func (x *X1) run(prefix []int, prefixPoints []point, useCache bool) *Exec {
 		ex.CostAt = append(ex.CostAt, used)
 		ex.Choices = append(ex.Choices, choice)
 		used += p.cost(choice)
+		if p.runningEnabled && choice != 0 && cs[0].T != nil {
+			delayed[cs[0].T] = true
+		}
+		if cs[choice].T != nil {
+			delete(delayed, cs[choice].T)
+		}
 		w.take(cs[choice])
 		x.Steps++
 	}
